@@ -180,7 +180,9 @@ ares_bool_t ares_timedout(const ares_timeval_t *now,
 /* add the specific number of milliseconds to the time in the first argument */
 static void timeadd(ares_timeval_t *now, size_t millisecs)
 {
-  now->sec  += (ares_int64_t)millisecs / 1000;
+  /* Divide first: millisecs may not fit the signed type (a retry delay of
+   * SIZE_MAX is a legal way to say "never") */
+  now->sec  += (ares_int64_t)(millisecs / 1000);
   now->usec += (unsigned int)((millisecs % 1000) * 1000);
 
   if (now->usec >= 1000000) {
